@@ -1,5 +1,6 @@
 import Autog.Json
 import Autog.Lemmas.MonitorMachine
+import Autog.Spec.Layering
 /-! The line-protocol driver: one case line in, one verdict line out. -/
 
 namespace Autog
@@ -88,6 +89,33 @@ def evalLayout (cfg : Cfg) (es : InEdges) (obs : Json) : E Verdict := do
       let total := logged.foldl (· + ·) 0
       let drawn := drawingCrossings o
       v := v.add "C12" (total == (drawn : Int)) s!"logged={total} drawn={drawn}"
+  -- C11
+  if cfg.p2 == 1 then v := v.add "C11" (c11 o) "bands-vs-longest-path"
+  -- C13
+  if isRootedTree es && cfg.p4 ≤ 3 && cfg.p5 == 0 && cfg.ns > 0 then
+    v := v.add "C13" (drawingCrossings o == 0) s!"tree drawn with {drawingCrossings o} crossings"
+  -- C14 first half
+  if cfg.p1 == 1 then v := v.add "C14" (c14_minimal o) "reversed-set-not-minimal"
+  -- C10: per traced component, the cut values of the final tree certify the layering
+  if cfg.p2 == 0 then
+    if let some cs := fieldOpt obs "comps" then
+      for comp in ← jArr cs do
+        for st in ← jArr comp do
+          match ← jArr st with
+          | [stage, snap] =>
+            if (← stage.getInt?) == 2 then
+              let g ← parseSnap snap
+              if g.nodes.size > 1 then
+                let es := g.elist.map fun i =>
+                  let e := g.edge i
+                  ({ src := e.src, dst := e.dst, w := e.weight, d := e.delta, x := if e.tree then e.cut else 0 } : WeakDuality.E)
+                let exhausted := g.elist.any fun i => (g.edge i).tree && (g.edge i).cut < 0
+                let contiguous := g.layers.toList.all fun l => !l.nodes.isEmpty
+                if exhausted then v := v.skip "C10" "iteration budget exhausted"
+                else
+                  v := v.addAll "C10" [("optimality-certificate", certOK es (fun i => (g.node i).layer) g.nodes.size),
+                                       ("contiguous-bands", contiguous)]
+          | _ => throw "bad stage"
   -- C16
   if (cfg.p4 == 1 || cfg.p4 == 2) && cfg.virt && (comps o).length == 1 then
     v := v.addAll "C16" [("extent", c16_extent cfg o), ("left-zero", c16_leftZero o),
@@ -287,6 +315,16 @@ def processCase (j : Json) : E Verdict := do
   | "monitor" => evalMonitor j obs
   | _ => throw s!"unknown op {op}"
 
+/-- several verdicts under one key (one per component): a failure dominates, then ok, then skip -/
+def mergeItems (items : List (String × String)) : List (String × String) :=
+  (dedup (items.map (·.1))).map fun k =>
+    let vs := (items.filter (·.1 == k)).map (·.2)
+    match vs.find? (·.startsWith "fail:") with
+    | some f => (k, f)
+    | none => match vs.find? (· == "ok") with
+      | some o => (k, o)
+      | none => (k, vs.head!)
+
 def processLine (line : String) : String :=
   match Json.parse line with
   | .error e => (Json.mkObj [("error", Json.str s!"parse: {e}")]).compress
@@ -294,6 +332,6 @@ def processLine (line : String) : String :=
     let id := (j.getObjVal? "id").toOption.bind (·.getStr?.toOption) |>.getD "?"
     match processCase j with
     | .error e => (Json.mkObj [("id", Json.str id), ("error", Json.str e)]).compress
-    | .ok v => (Json.mkObj [("id", Json.str id), ("v", Json.mkObj (v.items.map fun (k, s) => (k, Json.str s)))]).compress
+    | .ok v => (Json.mkObj [("id", Json.str id), ("v", Json.mkObj ((mergeItems v.items).map fun (k, s) => (k, Json.str s)))]).compress
 
 end Autog
